@@ -85,6 +85,11 @@ type Exec struct {
 	curPos       string
 	hashAx       []*smt.Term
 	hashAxPc     int
+	hashPairN    int
+	hashPairAx   []*smt.Term
+	oracleSeen   map[int]bool
+	oracleVars   []*smt.Term
+	oraclePcN    int
 	birth        map[string]int
 	birthSeq     int
 	maxBirthMemo map[int]int
@@ -92,6 +97,8 @@ type Exec struct {
 	draws        []*smt.Term
 	blobs        map[*ArrObj]BigVal
 	digests      map[*ArrObj]*smt.Term
+	signedMsgs   map[*ArrObj]*SignedMsg
+	initDone     map[*ssa.Package]bool
 }
 
 func (ex *Exec) end(k EndKind, format string, a ...interface{}) {
@@ -381,6 +388,22 @@ func (ex *Exec) constVal(c *ssa.Const) Value {
 func (ex *Exec) global(g *ssa.Global) *Cell {
 	if c, ok := ex.globals[g]; ok {
 		return c
+	}
+	// lazy package initialisation: run the package's init the first time one of its
+	// globals is touched (its init calls the inits of its dependencies itself)
+	if g.Pkg != nil && ex.P.isTarget(g.Pkg.Pkg.Path()) && !ex.initDone[g.Pkg] && !strings.HasPrefix(g.Name(), "init$") {
+		ex.initDone[g.Pkg] = true
+		if init := g.Pkg.Func("init"); init != nil {
+			saved := ex.inInit
+			savedPos := ex.curPos
+			ex.inInit = true
+			ex.interpret(init, nil)
+			ex.inInit = saved
+			ex.curPos = savedPos
+		}
+		if c, ok := ex.globals[g]; ok {
+			return c
+		}
 	}
 	if g.Pkg != nil && !ex.P.isTarget(g.Pkg.Pkg.Path()) {
 		// external package variable: modelled lazily
